@@ -35,12 +35,40 @@ package replication
 // The replication routine: a poll replicates (calls do) only if the flag read in that same
 // iteration said the lease is held. Callees of the routine are summarised by what they may write
 // (ASSUMED frames; none of them writes the worker's `leased` flag).
+// tableState: the resume point is the LEADER index recorded by the follower's own table, and the
+// shard is the one the catalogue record of that table names
+//@ import table "github.com/jamf/regatta/storage/table"
 //@ func (*worker).tableState
+//@   maypanic
+//@   results idx, cid, err
+//@   requires w != nil && w.engine != nil && w.engine.Manager != nil && w.engine.Manager.store != nil && w.engine.Manager.nh != nil
+//@   ensures [C05.state.leaderidx] err == nil ==> typeIs(w.engine.Manager.nh.lastReq, fsm.LeaderIndexRequest)
+//@   ensures [C05.state.shard] err == nil ==> cid == tableOf(bytesOf(w.engine.Manager.store.rPair[tkey(w.table)].Value)).ClusterID
+//@   modifies w.engine.Manager.store.rHas, w.engine.Manager.store.rPair, w.engine.Manager.nh.nsync, w.engine.Manager.nh.nstale, w.engine.Manager.nh.lastReq
+// recover (the leader answered USE_SNAPSHOT): asks the leader for a snapshot of THIS table, saves the
+// stream to a temporary file, and restores THIS table from that file rewound to its beginning
+//@ import snapshot "github.com/jamf/regatta/replication/snapshot"
+//@ import rate "golang.org/x/time/rate"
+//@ import os "os"
+//@ iface regattapb.SnapshotClient.Stream
 //@   assumed
+//@   params c, ctx, in, opts
+//@   results st, err
+//@   ensures err == nil ==> st != nil
+//@   modifies nothing
+//@ func rate.NewLimiter
+//@   assumed
+//@   ensures result != nil && fresh(result)
+//@   modifies nothing
+//@ func (*worker).recover$1
+//@   requires *sf != nil
 //@   modifies nothing
 //@ func (*worker).recover
-//@   assumed
-//@   modifies family(CH_len)
+//@   maypanic
+//@   requires w != nil && w.log != nil && w.snapshotClient != nil && w.engine != nil && w.engine.Manager != nil && w.engine.Manager.store != nil && w.engine.Manager.nh != nil && w.engine.Manager.log != nil
+//@   before regattapb.SnapshotClient.Stream assert [C07.recover.table+C05] in != nil && bytesOf(in.Table) == bytesOf(w.table)
+//@   before table.(*Manager).Restore assert [C07.recover.restore+C05] name == w.table && typeIs(reader, *snapshot.snapshotFile) && asType(reader, *snapshot.snapshotFile) != nil && asType(reader, *snapshot.snapshotFile).File.rest == asType(reader, *snapshot.snapshotFile).File.whole
+//@   modifies family(CH_len), family(G_any_rest), family(G_any_sdata), family(G_any_slen), family(G_any_nrecv), allelems(uint8), w.engine.Manager.store.rHas, w.engine.Manager.store.rPair, w.engine.Manager.store.nwk, w.engine.Manager.store.wVal, w.engine.Manager.store.wVer, w.engine.Manager.store.wDel, w.engine.Manager.store.wPrevHas, w.engine.Manager.store.wPrev, family(G_any_nrec), w.engine.Manager.nh.lastRes, w.engine.Manager.nh.lastErr, w.engine.Manager.nh.lastCmd, w.engine.Manager.nh.nelem, w.engine.Manager.nh.nseq
 //@ func (tableQueueLenStore).Max
 //@   assumed
 //@   modifies nothing
@@ -60,14 +88,14 @@ package replication
 
 //@ func (*worker).Start$3
 //@   maypanic
-//@   requires *w != nil && (*w).workerFactory != nil && (*w).engine != nil && (*w).engine.Manager != nil && (*w).engine.Manager.store != nil && (*w).log != nil && (*w).recoverySemaphore != nil && (*w).engine.NodeHost != nil && (*w).logClient != nil && (*w).metrics.replicationFollowerIndex != nil && (*w).metrics.replicationLeaderIndex != nil && 0 <= (*w).throttle.speed && (*w).throttle.speed < 5
-//@   modifies (*w).engine.NodeHost.lastRes, (*w).engine.NodeHost.lastErr, (*w).engine.NodeHost.lastCmd, (*w).engine.NodeHost.nelem, (*w).engine.NodeHost.nseq, allfields(worker), allfields(replicationThrottle), family(CH_len), world.clock, (*w).engine.Manager.store.rHas, (*w).engine.Manager.store.rPair, (*w).engine.Manager.store.nwk, (*w).engine.Manager.store.wVal, (*w).engine.Manager.store.wVer, (*w).engine.Manager.store.wDel, (*w).engine.Manager.store.wPrevHas, (*w).engine.Manager.store.wPrev
+//@   requires *w != nil && (*w).workerFactory != nil && (*w).engine != nil && (*w).engine.Manager != nil && (*w).engine.Manager.store != nil && (*w).engine.Manager.nh != nil && (*w).log != nil && (*w).recoverySemaphore != nil && (*w).engine.NodeHost != nil && (*w).logClient != nil && (*w).metrics.replicationFollowerIndex != nil && (*w).metrics.replicationLeaderIndex != nil && 0 <= (*w).throttle.speed && (*w).throttle.speed < 5
+//@   modifies (*w).engine.Manager.nh.nsync, (*w).engine.Manager.nh.nstale, (*w).engine.Manager.nh.lastReq, (*w).engine.NodeHost.lastRes, (*w).engine.NodeHost.lastErr, (*w).engine.NodeHost.lastCmd, (*w).engine.NodeHost.nelem, (*w).engine.NodeHost.nseq, allfields(worker), allfields(replicationThrottle), family(CH_len), world.clock, (*w).engine.Manager.store.rHas, (*w).engine.Manager.store.rPair, (*w).engine.Manager.store.nwk, (*w).engine.Manager.store.wVal, (*w).engine.Manager.store.wVer, (*w).engine.Manager.store.wDel, (*w).engine.Manager.store.wPrevHas, (*w).engine.Manager.store.wPrev
 //@   before replication.(*worker).do assert [C15.gate] (*w).leased.v != 0
 // the session used for proposing is derived, on every poll, from the shard the table currently points at
 //@   before replication.(*worker).do assert [C05.session] session == noopS(id) && leaderIndex == idx
 //@   loop 0 invariant 0 <= (*w).throttle.speed && (*w).throttle.speed < 5
 //@   loop 0 invariant (*w).metrics == old((*w).metrics) && (*w).engine.NodeHost == old((*w).engine.NodeHost) && (*w).logClient == old((*w).logClient) && (*w).workerFactory == old((*w).workerFactory)
-//@   loop 0 invariant t != nil && (*w).workerFactory == old((*w).workerFactory) && (*w).engine == old((*w).engine) && (*w).engine.Manager == old((*w).engine.Manager) && (*w).engine.Manager.store == old((*w).engine.Manager.store) && (*w).log == old((*w).log) && (*w).recoverySemaphore == old((*w).recoverySemaphore)
+//@   loop 0 invariant t != nil && (*w).workerFactory == old((*w).workerFactory) && (*w).engine == old((*w).engine) && (*w).engine.Manager == old((*w).engine.Manager) && (*w).engine.Manager.store == old((*w).engine.Manager.store) && (*w).engine.Manager.nh == old((*w).engine.Manager.nh) && (*w).log == old((*w).log) && (*w).recoverySemaphore == old((*w).recoverySemaphore)
 
 // ---------------------------------------------------------------- applying the leader's commands (C05)
 
